@@ -18,6 +18,8 @@ pub mod c13;
 pub mod c14;
 pub mod c15;
 pub mod c16;
+pub mod c17;
+pub mod c18;
 pub mod c19;
 pub mod c20;
 pub mod mergefam;
@@ -38,6 +40,8 @@ pub fn all() -> Vec<Box<dyn Property>> {
         Box::new(c14::prop()),
         Box::new(c15::prop()),
         Box::new(c16::prop()),
+        Box::new(c17::prop()),
+        Box::new(c18::prop()),
         Box::new(c19::prop()),
         Box::new(c20::prop()),
     ]
